@@ -363,7 +363,8 @@ def check_C09(c):
                                          Modes={S("safe"), S("reuse"), S("incr")}, Kinds={S("MatMul"), S("MatVecMul"), S("Outer")})))
     for name, k in jobs:
         cases = c.tlc("MC_linalg", name, k, inv)
-        c.replay(name, cases, dtypes="floatcomplex", pals="ident,signed" + ("" if q else ",edge"), rotate=2 if q else 0,
+        # (the chained products square the magnitudes: the overflow-edge palette has no exact oracle there)
+        c.replay(name, cases, dtypes="floatcomplex", pals="ident,signed" + ("" if q or name == "linalg-chain" else ",edge"), rotate=2 if q else 0,
                  extra=["-entries", "func,method"] + (["-palrotate", "1"] if q else []))
     c.rep.rule = ("TLC enumerates operand shape combinations (vector forms (n),(n,1),(1,n); matrices; rank-3 operands with every valid "
                   "single and double contraction axis pair; the Dot dispatch; Trace) x an independent layout per operand x {safe, reuse, "
